@@ -361,6 +361,7 @@ fn role_programs() -> Vec<(String, String)> {
             ("case clause", format!("pub fn «?:user»() {{ {{S}}case «n:m».«?:R»(1) {{ {l} -> {{USE}} }} }}")),
             ("lambda parameter", format!("pub fn «?:user»() {{ {{S}}let g = fn({l}: «?:m».«?:R») {{ {{USE}} }} «f:g» }}")),
             ("use binder", format!("pub fn «?:user»() {{ {{S}}use {l} <- «n:m».«?:with» {{USE}} }}")),
+            ("use binder, callee with arguments", format!("pub fn «?:user»() {{ {{S}}use {l} <- «n:m».«?:with2»(«f:num», «f:num»(1)) {{USE}} }}")),
         ];
         let mut uses: Vec<(&str, String)> = vec![
             ("field access", format!("{l}.fld")),
@@ -383,10 +384,20 @@ fn role_programs() -> Vec<(String, String)> {
             }
         }
     }
+    // a `use` binder spelled like a name used in its own callee: the callee is outside the binder's scope
+    for (sn, st) in [("plain", ""), ("after a multi-byte string", "\"→ é😀\" ")] {
+        let tail = "\nfn «?:own»(r: «?:m».«?:R») { r.fld }\nfn «?:num»(n: Int) { n }\n";
+        // function-typed parameter passed to the callee, binder of the same spelling is a record
+        out.push((format!("binder reuses a function-typed parameter|use binder|argument of the callee|{sn}"), format!("import «?:m»\npub fn «?:user»(h: fn(Int) -> Int) {{ {st}use h <- «n:m».«?:with2»(«f:h», 1) h.fld }}{tail}")));
+        // top-level function called in the callee, binder of the same spelling is a record
+        out.push((format!("binder reuses a top-level function|use binder|call inside the callee|{sn}"), format!("import «?:m»\npub fn «?:user»() {{ {st}use num <- «n:m».«?:with2»(«f:num», «f:num»(2)) num.fld }}{tail}")));
+        // the other way round: the binder is function-typed, the callee uses a record parameter of that spelling
+        out.push((format!("function-typed binder reuses a record parameter|use binder|argument of the callee|{sn}"), format!("import «?:m»\npub fn «?:user»(k: «?:m».«?:R») {{ {st}use k <- «n:m».«?:give»(k.fld) «f:k»(1) }}{tail}")));
+    }
     out
 }
 
-const ROLE_M: &str = "pub type R { R(fld: Int) }\npub const c = 1\npub fn show(r: R) -> Int { r.fld }\npub fn with(cb: fn(R) -> Int) -> Int { cb(R(1)) }\n";
+const ROLE_M: &str = "pub type R { R(fld: Int) }\npub const c = 1\npub fn show(r: R) -> Int { r.fld }\npub fn with(cb: fn(R) -> Int) -> Int { cb(R(1)) }\npub fn with2(f: fn(Int) -> Int, n: Int, cb: fn(R) -> Int) -> Int { cb(R(f(n))) }\npub fn give(n: Int, cb: fn(fn(Int) -> Int) -> Int) -> Int { cb(fn(x) { x + n }) }\n";
 
 /// (text, marks (start, end, kind))
 fn strip_marks(tpl: &str) -> (String, Vec<(usize, usize, char)>) {
@@ -471,7 +482,7 @@ fn roles_layer(rep: &mut Report) {
                 .into_iter()
                 .map(|(class, what, detail)| {
                     let parts: Vec<&str> = name.split('|').collect();
-                    Violation { class, key: format!("roles|{what}|{}|{}|{}", parts[0], parts[1], parts[2]), witness: json!({"role_program": name}), detail: format!("[{name}] {}: {detail}", strip_marks(tpl).0.trim().replace('\n', " / ")) }
+                    Violation { class, key: format!("roles|{what}|{}|{}|{}", parts[0], parts.get(1).copied().unwrap_or(""), parts.get(2).copied().unwrap_or("")), witness: json!({"role_program": name}), detail: format!("[{name}] {}: {detail}", strip_marks(tpl).0.trim().replace('\n', " / ")) }
                 })
                 .collect()
         })
